@@ -206,6 +206,16 @@ def check(prop, tier, seed):
     obligations, discharged, gate_problems, theorems = proof_gate(prop, tier)
     gen = props.GENERATORS[prop](tier, rng)
     cases = gen["cases"]
+    if tier == "thorough":
+        # a second and a third random stream: the enumerated parts repeat (dropped by their key), the sampled and random parts are new
+        seen_keys = {tuple(c["lines"]) for c in cases}
+        for extra_seed in (seed + 1, seed + 2):
+            more = props.GENERATORS[prop](tier, random.Random(extra_seed))["cases"]
+            fresh = [c for c in more if tuple(c["lines"]) not in seen_keys]
+            for c in fresh:
+                c["id"] = "%ss%d" % (c["id"], extra_seed - seed); c["key"] = "%s/s%d" % (c["key"], extra_seed - seed); seen_keys.add(tuple(c["lines"]))
+            cases = cases + fresh
+        gen["rule"] += "; thorough: the random and sampled parts are drawn three times (seeds s, s+1, s+2)"
     if prop in props.RENAMED_PROPS:
         # a third of the cases once more under an order-preserving renaming into awkward variable names
         extra = props.renamed_cases(prop, tier, seed)
